@@ -385,3 +385,273 @@ Theorem C16_fires_and_raises_any_queue :
                   finish_step t s6 o <| current := None |>).
 Proof. exact fires_and_raises_gen. Qed.
 Print Assumptions C16_fires_and_raises_any_queue.
+
+(* ====================================================================================
+   The timing half (Sched/TimerInv.v, Sched/TimerDue.v, Sched/TimerExamples.v): "fires iff the
+   block outlives its deadline" as theorems about the loop's timer mechanism (timers = the heapq
+   of (when, handle) of BaseEventLoop._scheduled; ABegin = the timer pass of _run_once; AAdvance =
+   the virtual clock).  All for EVERY user program and every ready queue with QSpec (list loop,
+   priority loop with or without boosting - Props/C09.v).
+
+   Additional vocabulary:
+     Inv qok b h w s     the state invariant of block b with trigger handle h and deadline w:
+                         h carries HTrigger b - the only handle that does - and is block b's timer
+                         (no other block's); h is not handle 0; h is cancelled iff b is
+                         inactive; while b is active (w, h) is in the timer heap; no other heap
+                         entry has handle h; h is not in the ready queue; no library frame of any
+                         task refers to h; the heap is a heap with distinct existing handles
+     EnterWf qok s       well-formedness of the state in which the block is entered (part of C09's
+                         invariant, InvC_EnterWf, plus: handle ids in the heap distinct, heap order,
+                         trigger callbacks only for existing blocks, at least one handle exists -
+                         i.e. some task was created before)
+     early w n acts      every ABegin of acts happens at a clock value < w, the clock starting at n
+     app_due s r e       the ready queue r with the due timer e appended (loop.call_soon order)
+     dl_le               deadline order on heap entries *)
+From Coq Require Import Sorting.Permutation Sorting.Sorted.
+From Asynkit Require Import Queue.Heap Sched.PartitionFinal Sched.TimerInv Sched.TimerDue Sched.TimerExamples.
+
+(* C16_timer_armed.  (1) entering with delay d at time now s: the reply is the new block id b, the
+   block is active for the calling task with timer handle h = the new handle, which carries
+   HTrigger b un-cancelled; the heap gains exactly the entry (now s + d, h) and no older entry has
+   handle h; the invariant holds.  (2) the invariant is kept by EVERY action list (every program,
+   every interleaving) whose iteration starts all happen before the deadline - so at every such
+   state: h is cancelled iff b was left, and while b is active the heap is l1 ++ (w, h) :: l2 with
+   no other entry for h (exactly one, un-cancelled), and h is not ready.  (3) the exit of b
+   (C16_exit_deactivates) keeps the invariant with b inactive and h cancelled; the entry stays in the
+   heap until an iteration start drops it (begin_iteration_spec: cancelled heads are dropped) *)
+Theorem C16_timer_armed :
+  (forall qok t d s, EnterWf qok s ->
+     let b := length (blocks s) in let h := length (handles s) in let w := (now s + d)%Q in
+     let s' := enter_st s t d in
+     lib_call t (OTimeoutEnter (Some d)) s = (s', LDone (RVal (Z.of_nat b))) /\
+     getb s' b = mkBlk t true h /\ geth s' h = mkH (HTrigger b) false /\
+     Permutation (timers s') ((w, h) :: timers s) /\
+     (forall e, In e (timers s) -> snd e <> h) /\
+     Inv qok b h w s') /\
+  (forall qok, QSpec qok -> forall b h w acts s,
+     Inv qok b h w s -> early w (now s) acts ->
+     let s' := fold_left do_action acts s in
+     Inv qok b h w s' /\
+     hcb (geth s' h) = HTrigger b /\ btimer (getb s' b) = h /\
+     hcancelled (geth s' h) = negb (bactive (getb s' b)) /\
+     ~ In h (rq_items (ready s')) /\
+     (bactive (getb s' b) = true ->
+        hcancelled (geth s' h) = false /\
+        exists l1 l2, timers s' = l1 ++ (w, h) :: l2 /\ forall e, In e (l1 ++ l2) -> snd e <> h)) /\
+  (forall qok, QSpec qok -> forall b h w t r s,
+     Inv qok b h w s ->
+     let s' := fst (lib_call t (OTimeoutExit b r) s) in
+     Inv qok b h w s' /\ bactive (getb s' b) = false /\ hcancelled (geth s' h) = true /\
+     timers s' = timers s) /\
+  (forall qok c s, InvC qok c s -> 0 < length (handles s) ->
+     (forall x b', x < length (handles s) -> hcb (geth s x) = HTrigger b' -> b' < length (blocks s)) ->
+     NoDup (map snd (timers s)) -> is_heap timer_lt (timers s) -> EnterWf qok s).
+Proof.
+  split; [exact enter_arms|]. split; [|split; [|exact InvC_EnterWf]].
+  - intros qok QS b h w acts s I He s'.
+    pose proof (armed_actions qok QS b h w acts s I He) as I'. fold s' in I'.
+    split; [exact I'|]. split; [apply (v_cb _ _ _ _ _ I')|]. split; [apply (v_bt _ _ _ _ _ I')|].
+    split; [apply (v_c _ _ _ _ _ I')|]. split; [apply (v_nr _ _ _ _ _ I')|].
+    intros A. apply (armed_exactly_one _ _ _ _ _ I' A).
+  - intros qok QS b h w t r s I s'.
+    assert (I' : Inv qok b h w s').
+    { unfold s'. destruct (lib_call t (OTimeoutExit b r) s) as [s1 r1] eqn:E. cbn [fst].
+      eapply K_inv. eapply (K_lib_call qok QS); [exact E|apply K_refl; exact I]. }
+    assert (A : bactive (getb s' b) = false).
+    { unfold s'. rewrite timeout_exit_eq. cbn [fst]. apply exit_state_facts. }
+    split; [exact I'|]. split; [exact A|]. split; [rewrite (v_c _ _ _ _ _ I'), A; reflexivity|].
+    unfold s'. rewrite timeout_exit_eq. reflexivity.
+Qed.
+Print Assumptions C16_timer_armed.
+
+(* C16_not_before_deadline (the "only if" direction, at the level of the trigger).  As long as every
+   iteration start of the run happens before the deadline, in every state reached (prefixes of an
+   early action list are early): the trigger handle of the block is not in the ready queue, the
+   handle the loop would run next is never the trigger and does not carry the callback HTrigger b
+   (h is the only handle that does), and the trigger's timer entry is still in the heap while the
+   block is active - so run_callback (HTrigger b), the only place where the interruptor task of b
+   (the only library code that throws b's token, C16_no_late_interrupt (1)) is created, is never
+   executed by the loop before the deadline *)
+Theorem C16_not_before_deadline :
+  forall qok, QSpec qok -> forall b h w acts s,
+  Inv qok b h w s -> early w (now s) acts ->
+  (forall acts1 acts2, acts = acts1 ++ acts2 -> early w (now s) acts1) /\
+  let s' := fold_left do_action acts s in
+  ~ In h (rq_items (ready s')) /\
+  (forall x r, rq_popleft (ready s') = Some (x, r) -> x <> h /\ hcb (geth s' x) <> HTrigger b) /\
+  (forall x, x < length (handles s') -> hcb (geth s' x) = HTrigger b -> x = h) /\
+  (bactive (getb s' b) = true -> In (w, h) (timers s') /\ hcancelled (geth s' h) = false).
+Proof.
+  intros qok QS b h w acts s I He. split.
+  - intros acts1 acts2 ->. clear I. revert He. generalize (now s). induction acts1 as [|a l IH]; intros n He.
+    + exact Logic.I.
+    + destruct a; cbn [early app] in *; try (apply IH; exact He). split; [apply He|apply IH; apply He].
+  - pose proof (armed_actions qok QS b h w acts s I He) as I'. cbv zeta.
+    split; [apply (v_nr _ _ _ _ _ I')|].
+    split; [intros x r P; split; [eapply popped_not_trigger; eauto|eapply popped_not_trigger_cb; eauto]|].
+    split; [apply (v_uq _ _ _ _ _ I')|].
+    intros A. split; [apply (v_in _ _ _ _ _ I' A)|]. rewrite (v_c _ _ _ _ _ I'), A. reflexivity.
+Qed.
+Print Assumptions C16_not_before_deadline.
+
+(* C16_due_timer_moves (the "if" direction, first half).  (1) what the start of an iteration does
+   (any state whose timer list is a heap): cancelled heads are dropped; then ALL due timers (when <=
+   now), cancelled or not, are appended to the ready queue in heap-pop order = non-decreasing
+   deadline (ties: heapq array order - TimerHandle.__lt__ compares `when` only; on the list loop:
+   ready = old ++ moved handles); what stays in the heap is strictly later than now.  (2) at an
+   iteration start with now >= deadline and the block still active, the trigger handle IS among
+   the moved ones: after those with earlier-or-equal deadline m1, before those with
+   later-or-equal deadline m2; no entry for h remains anywhere else.  (3) when the loop reaches
+   it (un-cancelled), run_one creates the interruptor task tn = a new C task whose body is
+   interruptor_body b, not done, with its first step HStep tn None appended to the ready queue *)
+Theorem C16_due_timer_moves :
+  (forall s, is_heap timer_lt (timers s) ->
+     exists dropped moved tm',
+       begin_iteration s = s <| timers := tm' |> <| ready := fold_left (app_due s) moved (ready s) |> /\
+       Permutation (timers s) (dropped ++ moved ++ tm') /\
+       (forall e, In e dropped -> hcancelled (geth s (snd e)) = true) /\
+       (forall e, In e moved -> (fst e <= now s)%Q) /\
+       (forall e, In e tm' -> (now s < fst e)%Q) /\
+       StronglySorted dl_le moved /\ is_heap timer_lt tm') /\
+  (forall s moved l, fold_left (app_due s) moved (RList l) = RList (l ++ map snd moved)) /\
+  (forall qok, QSpec qok -> forall b h w s,
+     Inv qok b h w s -> bactive (getb s b) = true -> (w <= now s)%Q ->
+     exists dropped m1 m2 tm',
+       let moved := m1 ++ (w, h) :: m2 in
+       begin_iteration s = s <| timers := tm' |> <| ready := fold_left (app_due s) moved (ready s) |> /\
+       Permutation (timers s) (dropped ++ moved ++ tm') /\
+       (forall e, In e dropped -> hcancelled (geth s (snd e)) = true) /\
+       (forall e, In e m1 -> (fst e <= w)%Q) /\
+       (forall e, In e m2 -> (w <= fst e)%Q /\ (fst e <= now s)%Q) /\
+       (forall e, In e tm' -> (now s < fst e)%Q) /\
+       (forall e, In e (dropped ++ m1 ++ m2 ++ tm') -> snd e <> h) /\
+       In h (rq_items (ready (begin_iteration s))) /\
+       (forall l, ready s = RList l ->
+          ready (begin_iteration s) = RList (l ++ map snd m1 ++ h :: map snd m2))) /\
+  (forall s b h r,
+     rq_popleft (ready s) = Some (h, r) -> geth s h = mkH (HTrigger b) false ->
+     let tn := length (tasks s) in let hs := length (handles s) in let s' := run_one s in
+     s' = fst (new_task (s <| ready := r |>) KC None (interruptor_body b)) /\
+     length (tasks s') = S tn /\
+     gett s' tn = mkTask KC None (length (futs s)) (TNew (interruptor_body b)) None false [] None /\
+     tdone s' tn = false /\ geth s' hs = mkH (HStep tn None) false /\
+     (exists p, ready s' = rq_append r hs p) /\
+     blocks s' = blocks s /\ timers s' = timers s /\ now s' = now s /\
+     (forall t, t < tn -> gett s' t = gett s t) /\ (forall x, x < hs -> geth s' x = geth s x)).
+Proof.
+  split; [exact begin_iteration_spec|]. split; [exact fold_app_due_list|].
+  split; [exact due_timer_moves|exact trigger_runs].
+Qed.
+Print Assumptions C16_due_timer_moves.
+
+(* C16_fires_in_first_iteration (list loop; composition with C16_fires / C16_fires_and_raises).
+   (1) the interruptor task's first step IS attempt 0 of its loop, run in the state in which it is
+   the current task.  (2) if block b is still active then and task_throw accepts the token for the
+   block's task t (the hypotheses of C16_fires: e.g. a Python task blocked on a pending future,
+   C16_fires second clause), that step throws ETimeoutInt b, ends with the target's new handle hn
+   at the HEAD of the ready queue and the interruptor queued last, and the next handle run is
+   step_task t (Some token) - whose outcome is C16_token_step_raises / C16_fires_and_raises: the
+   token reaches the exit of b, TimeoutError leaves the block.  (3) the tie the oracle tolerates:
+   if the exit of b ran first - at any earlier point, in particular earlier in the same iteration -
+   then whatever happened in between, a cancelled trigger at the head is popped and skipped, and
+   every run of b's interruptor (spawned before or after) returns with the state unchanged *)
+Theorem C16_fires_in_first_iteration :
+  (forall s hs r tn b,
+     rq_popleft (ready s) = Some (hs, r) -> geth s hs = mkH (HStep tn None) false ->
+     tdone s tn = false -> tcont_ (gett s tn) = TNew (interruptor_body b) -> tmustc (gett s tn) = false ->
+     let s1 := running_state (s <| ready := r |>) tn in
+     run_one s =
+     (let '(s2, r2) := interruptor 4 s1 b 0 in
+      let '(s3, r3) := interruptor_wrap s2 r2 in
+      finish_step tn s3 (match r3 with LDone rep => ODone rep | LSusp y frs => OYield y frs kI end)
+        <| current := None |>)) /\
+  (forall s hs l tn b s1' v,
+     ready s = RList (hs :: l) -> geth s hs = mkH (HStep tn None) false ->
+     tdone s tn = false -> tcont_ (gett s tn) = TNew (interruptor_body b) -> tmustc (gett s tn) = false ->
+     bactive (getb s b) = true ->
+     let t := btask (getb s b) in
+     let tok := ETimeoutInt b in
+     let hn := length (handles s) in
+     let s1 := running_state (s <| ready := RList l |>) tn in
+     tn <> t -> task_throw s1 t tok = (s1', RVal v) ->
+     exists l',
+       let sI := s1' <| ready := RList (hn :: l') |> in
+       let sF := run_one s in
+       interruptor 4 s1 b 0 = (sI, LSusp YNone [InSleep0; InIntr b 0 0]) /\
+       sF = finish_step tn sI (OYield YNone [InSleep0; InIntr b 0 0] kI) <| current := None |> /\
+       ready sF = RList (hn :: l' ++ [length (handles sI)]) /\
+       geth sF hn = mkH (HStep t (Some tok)) false /\
+       gett sF t = gett sI t /\ blocks sF = blocks sI /\
+       run_one sF = step_task t (Some tok) (sF <| ready := RList (l' ++ [length (handles sI)]) |>)) /\
+  (forall t b r s acts, b < length (blocks s) ->
+     let s2 := fold_left do_action acts (fst (lib_call t (OTimeoutExit b r) s)) in
+     bactive (getb s2 b) = false /\
+     (forall x r', rq_popleft (ready s2) = Some (x, r') -> hcancelled (geth s2 x) = true ->
+                   run_one s2 = s2 <| ready := r' |>) /\
+     (forall fuel i, interruptor fuel s2 b i = (s2, LDone (RVal 0))) /\
+     (forall t', lib_call t' (OInterruptor b) s2 = (s2, LDone (RVal 0)))).
+Proof.
+  split; [exact interruptor_first_step|]. split; [exact fires_first_step|].
+  intros t b r s acts Hb s2.
+  destruct (no_late_interrupt t b r s acts Hb) as (A & B & C & _).
+  split; [exact A|]. split; [intros x r' P Hc; apply (cancelled_handle_skipped s2 x r' P Hc)|].
+  split; [exact B|exact C].
+Qed.
+Print Assumptions C16_fires_in_first_iteration.
+
+(* complete runs (list loop, SPy task; the task sleeps 1, then enters task_timeout(2) at time 1 -
+   deadline 3 - around sleep(X)): X = 5/2: nothing at clock 2, at clock 3 the trigger is moved, runs,
+   the interruptor throws, TimeoutError (904) leaves the block in that iteration;  X = 3/2: the
+   body ends at 2.5, the block is left normally (7, 8), the cancelled entry is dropped at clock 3,
+   no interruptor is ever created;  X = 2 (exact tie): the trigger (older timer) is moved before
+   the sleep's callback and the block is interrupted.  Last: the hypotheses EnterWf / Inv / early
+   are satisfiable (a block entered from outside the loop after a spawn) *)
+Theorem C16_deadline_examples :
+  (let st_after n := run_acts (firstn n ex_dl_long) in
+   (now (st_after 7) == 1 /\ blocks (st_after 7) = [mkBlk 0 true 3] /\
+    geth (st_after 7) 3 = mkH (HTrigger 0) false /\
+    filter (fun e => Nat.eqb (snd e) 3) (timers (st_after 7)) = [((1 + 2)%Q, 3)] /\
+    rq_items (ready (st_after 7)) = []) /\
+   (now (st_after 9) == 2 /\ rq_items (ready (st_after 9)) = [] /\
+    map bactive (blocks (st_after 9)) = [true] /\ hcancelled (geth (st_after 9) 3) = false /\
+    filter (fun e => Nat.eqb (snd e) 3) (timers (st_after 9)) = [((1 + 2)%Q, 3)] /\
+    events_of (st_after 9) = [] /\ length (tasks (st_after 9)) = 1) /\
+   (now (st_after 11) == 3 /\ rq_items (ready (st_after 11)) = [3] /\
+    filter (fun e => Nat.eqb (snd e) 3) (timers (st_after 11)) = [] /\
+    map bactive (blocks (st_after 11)) = [true]) /\
+   (length (tasks (st_after 12)) = 2 /\ tcont_ (gett (st_after 12) 1) = TNew (interruptor_body 0) /\
+    rq_items (ready (st_after 12)) = [5] /\ geth (st_after 12) 5 = mkH (HStep 1 None) false) /\
+   (rq_items (ready (st_after 13)) = [6; 7] /\
+    geth (st_after 13) 6 = mkH (HStep 0 (Some (ETimeoutInt 0))) false /\
+    geth (st_after 13) 7 = mkH (HStep 1 None) false /\ events_of (st_after 13) = []) /\
+   (events_of (st_after 14) = [904; 8]%Z /\ map bactive (blocks (st_after 14)) = [false] /\
+    hcancelled (geth (st_after 14) 3) = true /\ now (st_after 14) == 3) /\
+   (rq_items (ready (st_after 15)) = [] /\ errors (st_after 15) = [] /\
+    map fstate_ (futs (st_after 15)) = [FResult 0; FResult 0; FPending; FResult 0])) /\
+  (let st_after n := run_acts (firstn n ex_dl_short) in
+   (now (st_after 9) == 2 /\ rq_items (ready (st_after 9)) = [] /\
+    map bactive (blocks (st_after 9)) = [true] /\ hcancelled (geth (st_after 9) 3) = false) /\
+   (now (st_after 13) == (5 # 2) /\ events_of (st_after 13) = [7; 8]%Z /\
+    map bactive (blocks (st_after 13)) = [false] /\ hcancelled (geth (st_after 13) 3) = true /\
+    filter (fun e => Nat.eqb (snd e) 3) (timers (st_after 13)) = [((1 + 2)%Q, 3)] /\
+    rq_items (ready (st_after 13)) = []) /\
+   (now (st_after 15) == 3 /\ timers (st_after 15) = [] /\ rq_items (ready (st_after 15)) = [] /\
+    st_after 16 = st_after 15 /\ events_of (st_after 16) = [7; 8]%Z /\ length (tasks (st_after 16)) = 1 /\
+    fstate_ (getf (st_after 16) 0) = FResult 0 /\ errors (st_after 16) = [])) /\
+  (let st_after n := run_acts (firstn n ex_dl_tie) in
+   (rq_items (ready (st_after 9)) = [3; 4] /\ hcb (geth (st_after 9) 3) = HTrigger 0 /\
+    hcb (geth (st_after 9) 4) = HSetResult 2 0) /\
+   events_of (st_after 14) = [904; 8]%Z /\ map bactive (blocks (st_after 14)) = [false] /\
+   rq_items (ready (st_after 14)) = [] /\ errors (st_after 14) = []) /\
+  (EnterWf qok_list ex_s0 /\
+   let s1 := fst (lib_call 0 (OTimeoutEnter (Some 2%Q)) ex_s0) in
+   Inv qok_list 0 1 (now ex_s0 + 2)%Q s1 /\
+   (forall acts, early (now ex_s0 + 2)%Q (now s1) acts ->
+      Inv qok_list 0 1 (now ex_s0 + 2)%Q (fold_left do_action acts s1)) /\
+   early (now ex_s0 + 2)%Q (now s1)
+         [ABegin; AStep; AAdvance 1%Q; ABegin; AStep; AStep; AAdvance (1 # 2); ABegin; AStep]).
+Proof.
+  split; [exact ex_deadline_fires|]. split; [exact ex_deadline_not_reached|].
+  split; [exact ex_deadline_tie|]. split; [exact ex_enter_wf|exact ex_inv_holds].
+Qed.
+Print Assumptions C16_deadline_examples.
